@@ -4,7 +4,7 @@ Each statement is printed by Coq itself (Check), so the file repeats every state
 Run from /verif/coq after the development has been compiled:  python3 ../tools/mkprops.py [Cxx ...]"""
 import subprocess, sys, re, os
 
-IMP = "Model Sem InvDb InvSwap InvMint InvMelt Corollaries Queries Footprint HRel Global GlobalQuote GlobalValue GlobalErr GlobalQuery GlobalMelt GlobalKeys Cuts CutOrder Conc Races GlobalBalance GlobalLedger Reconf GlobalPoll Trace Admin AdminProofs"
+IMP = "Model Sem InvDb InvSwap InvMint InvMelt Corollaries Queries Footprint HRel Global GlobalQuote GlobalValue GlobalErr GlobalQuery GlobalMelt GlobalKeys Cuts CutOrder Conc Races GlobalBalance GlobalLedger Reconf GlobalPoll Trace Admin AdminProofs CutValue CutMint CutFrames ConcValue CutHistory CutBalance"
 
 GLOSSARY = """   Reading guide (definitions in coq/Mint/*.v):
      world            = store (tables spent/pending/signatures/mint quotes/melt quotes/keysets) + Lightning environment
@@ -27,13 +27,13 @@ GLOSSARY = """   Reading guide (definitions in coq/Mint/*.v):
 PROPS = {
  'C01': ("No double spend: an ecash proof is redeemed at most once, ever", [
    'hrun_inv', 'hrun_ext', 'spent_once', 'spent_forever', 'state_of_spent_forever', 'spent_stays_refused',
-   'reach_good', 'at_most_once', 'concurrent_at_most_once', 'locked_or_spent_refused', 'swap_melt_race',
+   'reach_good', 'at_most_once', 'concurrent_at_most_once', 'concurrent_swaps_never_inflate', 'concurrent_swaps_keep_good', 'concurrent_swaps_example', 'locked_or_spent_refused', 'swap_melt_race',
    'swap_rejects_represented', 'swap_rejects_duplicate', 'melt_rejects_represented']),
  'C02': ("No inflation: outstanding ecash plus Lightning outflow never exceeds inflow", [
-   'no_inflation_ledger', 'ledger_history_ok', 'no_inflation', 'no_inflation_reconf', 'no_inflation_ledger_reconf', 'swap_cut_signatures_imply_spent', 'swap_balanced', 'mint_within_quote', 'melt_burns_enough', 'validated_covers',
+   'no_inflation_ledger', 'ledger_history_ok', 'no_inflation', 'no_inflation_reconf', 'no_inflation_ledger_reconf', 'no_inflation_with_cuts', 'swap_cut_no_value_created', 'concurrent_swaps_never_inflate', 'swap_cut_signatures_imply_spent', 'swap_balanced', 'mint_within_quote', 'melt_burns_enough', 'validated_covers',
    'melt_fee_limit', 'melt_fee_limit_mpp', 'request_melt_quote_fee', 'melt_amount_must_fit']),
  'C03': ("A mint quote is issued at most once per payment, never before it is paid", [
-   'quote_issued_at_most_once_per_payment', 'internal_credits_are_melts', 'step_qinv', 'mint_needs_payment', 'mint_within_quote', 'mint_once',
+   'quote_issued_at_most_once_per_payment', 'mint_cut_states', 'internal_credits_are_melts', 'step_qinv', 'mint_needs_payment', 'mint_within_quote', 'mint_once',
    'mint_marks_issued', 'mint_nut20', 'watcher_only_unpaid', 'quotes_never_altered', 'mint_mint_race']),
  'C04': ("Only genuine mint signatures are honoured, at exactly their signed amount", [
    'check_proof_iff', 'check_proofs_forall', 'swap_accepts_only_genuine']),
@@ -45,6 +45,7 @@ PROPS = {
    'hrun_inv', 'hrun_ext', 'reconf_inv', 'reconf_ext', 'only_op', 'cut_keeps_keysets', 'cut_keeps_quotes', 'cut_signs_only_when_issuing',
    'keysets_never_lost', 'quotes_never_altered', 'spent_stays_refused', 'stored_signature_stays_restorable',
    'request_run_never_panics', 'step_log_step', 'step_crash_log_step', 'swap_cut_signatures_imply_spent', 'swap_ordered', 'mint_ordered', 'melt_ordered',
+   'swap_cut_states', 'swap_cut_no_value_created', 'mint_cut_states', 'no_inflation_with_cuts', 'cut_history_ok', 'balance_never_negative_with_cuts',
    'crash_in_settle_inflates', 'crash_in_swap_strands', 'crash_in_mint_strands', 'crash_in_rotate_bricks']),
  'C09': ("Keyset lifecycle: deterministic keys, one active keyset, old ecash stays valid", [
    'one_active_keyset', 'keysets_never_lost', 'reconf_keeps_keysets', 'arun_as_history', 'admin_rotate_is_rotate', 'admin_rotate_bad_fee', 'admin_readonly', 'cut_keeps_keysets', 'rotate_spec', 'rotate_fee_must_fit', 'load_spec',
@@ -53,7 +54,7 @@ PROPS = {
    'check_state_general', 'check_state_exact', 'signatures_are_exactly_what_was_returned', 'restore_is_exact', 'restore_exact',
    'restore_finds_issued', 'state_of_spent_forever', 'sig_forever']),
  'C16': ("Reported balances are exact and configured limits are enforced", [
-   'balance_never_negative', 'step_bi', 'binv_bound', 'honest_history_ok', 'admin_total_is_total_balance', 'admin_issued_view', 'admin_redeemed_view',
+   'balance_never_negative', 'balance_never_negative_with_cuts', 'cut_balance_history_ok', 'step_bi', 'binv_bound', 'honest_history_ok', 'admin_total_is_total_balance', 'admin_issued_view', 'admin_redeemed_view',
    'issued_view_total', 'redeemed_view_total', 'total_balance_exact', 'total_balance_overflow_fails', 'signatures_are_exactly_what_was_returned',
    'mint_limit_enforced', 'melt_limit_enforced', 'melt_amount_must_fit', 'balance_limit_enforced', 'huge_quote_refused', 'info_disabled_iff']),
 }
@@ -64,7 +65,7 @@ NOTES = {
  'C03': "   quote_issued_at_most_once_per_payment: ghost lists iss/cred of issuance and internal-credit events along the history (qtrace);\n   honest = the invoice subscription only reports invoices that are settled.  Concurrent MintTokens on one quote are NOT safe in the\n   code: mint_mint_race is the computed schedule (known finding, c03-sched).\n",
  'C05': "   ambiguous = any answer that is not a definitive success or failure; look_ambiguous w = every scripted lookup answer is ambiguous.\n",
  'C06': "   refusal_changes_nothing: quiet = all tables equal, except that an UNPAID quote whose invoice is settled may be recorded PAID.\n   Excluded: refusals caused by a Lightning-backend error (fault domain, C07).  nopanic p = no Panic leaf is reachable in p.\n",
- 'C07': "   The last four are refutations: computed cuts of the model at which value is inflated / stranded / the mint cannot start;\n   the c07-cuts stream replays them (and every other cut) on the real mint; they are listed in known_findings.json.\n",
+ 'C07': "   The last four are refutations: computed cuts of the model at which value is inflated / stranded / the mint cannot start;\n   the c07-cuts stream replays them (and every other cut) on the real mint; they are listed in known_findings.json.\n   swap_cut_states / mint_cut_states: the exact sets of stores reachable by cutting a Swap / MintTokens anywhere under any storage errors.\n   no_inflation_with_cuts: cut_item = any request run to completion, or a request other than MeltTokens / melt-quote poll / state check cut\n   or faulted anywhere, or a concurrent batch of swaps and reads under any schedule; for cuts of the excluded three the inequality is false (refutations).\n",
  'C09': "   KOk w: memory = stored rows, one active keyset = w_active, all other ids smaller.  The bit-level derivation is C11 (c09-keygen stream).\n",
  'C15': "   state_of d y = (y, 2, witness) if y is in spent, else (y, 1, witness) if pending, else (y, 0, 0).\n",
  'C16': "   total_balance_exact needs redeemed <= issued (unforgeability: every spent proof was issued) and totals below 2^64.\n",
